@@ -13,6 +13,15 @@ use std::cell::RefCell;
 
 pub const NSLOTS: usize = 8;
 
+pub type HelperObserver = Box<dyn FnMut(u32, [u64; 5], u64)>;
+thread_local! {
+    static OBSERVER: RefCell<Option<HelperObserver>> = const { RefCell::new(None) };
+}
+/// Install a callback invoked at every helper call (id, arguments, returned value).
+pub fn set_helper_observer(o: Option<HelperObserver>) {
+    OBSERVER.with(|c| *c.borrow_mut() = o);
+}
+
 thread_local! {
     static IDS: RefCell<[u32; NSLOTS]> = const { RefCell::new([0; NSLOTS]) };
     static HLOG: RefCell<Vec<(u32, [u64; 5], u64)>> = const { RefCell::new(Vec::new()) };
@@ -31,11 +40,17 @@ fn helper_body(slot: usize, a: [u64; 5]) -> u64 {
     let rsp = read_rsp();
     let id = IDS.with(|i| i.borrow()[slot]);
     HLOG.with(|l| l.borrow_mut().push((id, a, rsp % 16)));
-    a[0].wrapping_add(a[1].wrapping_mul(2))
+    let ret = a[0].wrapping_add(a[1].wrapping_mul(2))
         .wrapping_add(a[2].wrapping_mul(3))
         .wrapping_add(a[3].wrapping_mul(5))
         .wrapping_add(a[4].wrapping_mul(7))
-        .wrapping_add(id as u64)
+        .wrapping_add(id as u64);
+    OBSERVER.with(|o| {
+        if let Some(f) = o.borrow_mut().as_mut() {
+            f(id, a, ret);
+        }
+    });
+    ret
 }
 
 macro_rules! mk_helper {
@@ -203,14 +218,19 @@ pub const DEFAULT_BUDGET: u64 = 3_000_000;
 
 /// Everything observable about running `case` on `engine`.  Called inside a child process.
 pub fn run_case(case: &Value, engine: &str) -> Value {
-    let r = std::panic::catch_unwind(|| run_case_inner(case, engine));
+    run_case_with_hook(case, engine, true)
+}
+
+/// `own_hook = false`: the caller has installed its own interpreter step hook (trace recording).
+pub fn run_case_with_hook(case: &Value, engine: &str, own_hook: bool) -> Value {
+    let r = std::panic::catch_unwind(|| run_case_inner(case, engine, own_hook));
     match r {
         Ok(v) => v,
         Err(e) => json!({"engine": engine, "k": "panic", "stage": "harness-or-load", "msg": panic_msg(e)}),
     }
 }
 
-fn run_case_inner(case: &Value, engine: &str) -> Value {
+fn run_case_inner(case: &Value, engine: &str, own_hook: bool) -> Value {
     let kind = case["vm"].as_str().unwrap();
     let prog: &'static [u8] = Box::leak(prog_bytes(&case["prog"]).into_boxed_slice());
     let fixed_v = arr(&case["fixed"]);
@@ -277,11 +297,13 @@ fn run_case_inner(case: &Value, engine: &str) -> Value {
         Some(b) if b > 0 => b,
         _ => DEFAULT_BUDGET,
     };
-    let mut steps = 0u64;
-    rbpf::verif::set_step_hook(Some(Box::new(move |_pc, _reg, _depth, _stack| {
-        steps += 1;
-        steps <= budget
-    })));
+    if own_hook {
+        let mut steps = 0u64;
+        rbpf::verif::set_step_hook(Some(Box::new(move |_pc, _reg, _depth, _stack| {
+            steps += 1;
+            steps <= budget
+        })));
+    }
     // "warm" cases: an earlier execution with a different packet must not influence this one (C09, C10)
     if case["warm"].as_u64() == Some(1) && kind != "nodata" {
         // (a larger packet, so that whatever is in bounds for the real one is in bounds here)
@@ -296,7 +318,9 @@ fn run_case_inner(case: &Value, engine: &str) -> Value {
     let res = std::panic::catch_unwind(std::panic::AssertUnwindSafe(|| {
         vm.exec(engine, pkt.slice(), mbuf.slice())
     }));
-    rbpf::verif::set_step_hook(None);
+    if own_hook {
+        rbpf::verif::set_step_hook(None);
+    }
 
     let hlog: Vec<Value> = HLOG.with(|l| {
         l.borrow()
